@@ -24,6 +24,7 @@ EXPLANATION = (
     "transitions flag the subtree, reset trigger, seed expression (C10). Decides these clauses; that counts respect "
     "the limits at every instant follows from them plus the single-threaded event loop, which is assumed. "
     'Also: the sum of units in use reads only claims and states and has exactly the two conjuncts name/RUNNING (detached running steps still count); every path of after_recycle stores the declared resources; R-C12-5 the open-hold counter is written only by hold()/release() and cleared only by the state-change trigger.'
+    ' R-C12-7 set_resources deletes all claims of the step and inserts the declared ones without deferring to existing rows; R-C12-8 the subtree flagging on detach/reattach that the hold clause relies on.'
 )
 ASSUMPTIONS = ["single-threaded asyncio event loop", "a step's command is only started by executor.launch_command"]
 
